@@ -33,6 +33,11 @@ Section Kernels.
   Definition solid_angle_den (Y1 Y2 Y3 : V) (y1 y2 y3 : F) : F :=
     y1 * y2 * y3 + y1 * dot Y2 Y3 + y2 * dot Y3 Y1 + y3 * dot Y1 Y2.
 
+  (* the degeneracy test shared by solid_angle and analyticD3::f:  fabs(d)<1e-10  (absolute, d has the
+     dimension of a volume -- DESIGN 4 #16); kept as ONE definition so that a repaired (relative) test is a
+     one-line change here *)
+  Definition coplanar_test (d y1 y2 y3 : F) : bool := fltb o (fabs o d) thr_1e10.
+
   Definition solid_angle (x v1 v2 v3 : V) : F :=
     let Y1 := vsub v1 x in
     let Y2 := vsub v2 x in
@@ -41,7 +46,7 @@ Section Kernels.
     let y2 := norm Y2 in
     let y3 := norm Y3 in
     let d := det3 Y1 Y2 Y3 in
-    if fltb o (fabs o d) thr_1e10 then f0 o
+    if coplanar_test d y1 y2 y3 then f0 o
     else f2 o * fatan2 o d (solid_angle_den Y1 Y2 Y3 y1 y2 y3).
 
   (* ---- analytics.h: integral_simplified_green ----------------------------------------------------------- *)
@@ -140,7 +145,7 @@ Section Kernels.
     let y2 := norm Y2 in
     let y3 := norm Y3 in
     let d := det3 Y1 Y2 Y3 in
-    if fltb o (fabs o d) thr_1e10 then vconst (f0 o)
+    if coplanar_test d y1 y2 y3 then vconst (f0 o)
     else
       let omega := f2 o * fatan2 o d (solid_angle_den Y1 Y2 Y3 y1 y2 y3) in
       let Z1 := cross Y2 Y3 in
